@@ -437,8 +437,34 @@ func errStr(err error) string {
 	return err.Error()
 }
 
-func runPatchCase(c *kit.Ctx, name string, r *rand.Rand, st stats) {
-	if chance(r, 0.12) {
+func runPatchCase(c sink, name string, r *rand.Rand, st stats) { runPatchCaseOpt(c, name, r, st, false) }
+
+// runStarCase is the same family biased towards one input class: the target holds a map with a
+// key named "*" and the target path is a wildcard over that map.
+func runStarCase(c sink, name string, r *rand.Rand, st stats) { runPatchCaseOpt(c, name, r, st, true) }
+
+// starTarget inserts a "*" key into a map of dst and returns a wildcard path over that map.
+func starTarget(r *rand.Rand, dst map[string]any) toPath {
+	segs := randomWalk(r, dst, []string{"spec"}, 1)
+	for len(segs) > 1 {
+		if end, st := walk(dst, segs); st == stFound {
+			if _, isM := end.(map[string]any); isM {
+				break
+			}
+		}
+		segs = segs[:len(segs)-1]
+	}
+	end, _ := walk(dst, segs)
+	end.(map[string]any)["*"] = genScalar(r)
+	segs = append(segs, seg{wild: true})
+	if chance(r, 0.4) {
+		segs = append(segs, seg{field: genKey(r)})
+	}
+	return toPath{s: render(r, segs), segs: segs, class: "wildcard-over-star-key", wild: true}
+}
+
+func runPatchCaseOpt(c sink, name string, r *rand.Rand, st stats, star bool) {
+	if !star && chance(r, 0.12) {
 		runRenderCase(c, name, r, st)
 		return
 	}
@@ -455,6 +481,22 @@ func runPatchCase(c *kit.Ctx, name string, r *rand.Rand, st stats) {
 		typ = "FromEnvironmentFieldPath" // not a patch type of this API version
 	}
 	pc := genPatch(r, typ, xr, cd)
+	if star {
+		for try := 0; try < 20; try++ {
+			pc = genPatch(r, pick(r, []v1.PatchType{v1.PatchTypeFromCompositeFieldPath, v1.PatchTypeToCompositeFieldPath}), xr, cd)
+			if len(pc.froms) == 1 && pc.froms[0].status == stFound && pc.pred != pChainErr {
+				break
+			}
+		}
+		dst := cd
+		if pc.toXR {
+			dst = xr
+		}
+		pc.to = starTarget(r, dst)
+		pc.p.ToFieldPath = ptrTo(pc.to.s)
+		pc.pred, pc.hasWildExpect = pFree, false
+		st.inc("patch_star_key_cases")
+	}
 
 	// entry point
 	entry := "Apply"
@@ -706,7 +748,7 @@ func allFound(fps []genPath) bool {
 
 // ---- template level: PatchSets inlined by ComposedTemplates, then Render*Patches ---------------------
 
-func runRenderCase(c *kit.Ctx, name string, r *rand.Rand, st stats) {
+func runRenderCase(c sink, name string, r *rand.Rand, st stats) {
 	xr, cd := genXR(r), genCD(r)
 	nSets := 1 + r.IntN(3)
 	var sets []v1.PatchSet
